@@ -133,6 +133,10 @@ func c01RandCall(rng *rand.Rand, fn string) c01Call {
 	c.NOpts = []int{0, 1, 2, 2}[rng.Intn(4)]
 	c.CtxKind = 1 + rng.Intn(3)
 	c.StKind = 1 + rng.Intn(3)
+	// by default the caller's out variables already hold values (of every kind: scalars, strings, vectors, byte vectors,
+	// maps, structs with optional members and fixed arrays), and now and then the implementation empties every out parameter
+	c.Prior = rng.Intn(4) != 0
+	c.EmptyOuts = rng.Intn(4) == 0
 	if rng.Intn(3) > 0 {
 		c.RCtx = rng.Intn(4)
 		c.RSt = rng.Intn(4)
